@@ -100,6 +100,7 @@ pub struct World<T: E> {
 
 fn lib<R>(f: impl FnOnce() -> R) -> Result<R, ()> {
   unsafe {
+    alloc::PANIC_SKIP = false;
     alloc::TRACK = 1;
   }
   let r = catch_unwind(AssertUnwindSafe(f));
@@ -351,6 +352,16 @@ impl<T: E> World<T> {
       let _ = write!(self.out, " | M=[{}]", mon.join(","));
     }
     self.out.push('\n');
+    // written at once: if a later operation kills the process the trace so far survives
+    {
+      use std::io::Write as _;
+      let _u = User::enter();
+      let o = std::io::stdout();
+      let mut o = o.lock();
+      let _ = o.write_all(self.out.as_bytes());
+      let _ = o.flush();
+    }
+    self.out.clear();
   }
 
   fn pred_box(script: &str) -> Pred<T> {
@@ -383,6 +394,14 @@ impl<T: E> World<T> {
         }
       };
     }
+    macro_rules! free {
+      ($v:expr) => {
+        if $v < self.vecs.len() && self.vecs[$v].is_some() {
+          self.emit(k, name, "skip", "-");
+          return;
+        }
+      };
+    }
     macro_rules! needi {
       ($i:expr) => {
         if !($i < self.iters.len() && self.iters[$i].is_some()) {
@@ -394,6 +413,7 @@ impl<T: E> World<T> {
     match name {
       "new" | "default" | "mac0" => {
         let v = n(1);
+        free!(v);
         let r = match name {
           "new" => lib(|| MiniVec::<T>::new()),
           "default" => lib(|| <MiniVec<T> as Default>::default()),
@@ -409,6 +429,7 @@ impl<T: E> World<T> {
       }
       "wcap" => {
         let v = n(1);
+        free!(v);
         self.slot(v);
         let c = self.arg(t(2), v);
         match lib(|| MiniVec::<T>::with_capacity(c)) {
@@ -418,6 +439,7 @@ impl<T: E> World<T> {
       }
       "walign" => {
         let v = n(1);
+        free!(v);
         self.slot(v);
         let c = self.arg(t(2), v);
         let a = self.arg(t(3), v);
@@ -451,6 +473,7 @@ impl<T: E> World<T> {
       }
       "fromslice" | "frommut" => {
         let v = n(1);
+        free!(v);
         let cnt = n(2);
         let mut src: Vec<T> = (0..cnt).map(|_| T::fresh(None)).collect();
         let pays: Vec<i64> = src.iter().map(|x| x.pay()).collect();
@@ -466,6 +489,7 @@ impl<T: E> World<T> {
       }
       "fromstr" => {
         let v = n(1);
+        free!(v);
         let cnt = n(2);
         // the string's bytes take the next identities (mod 256), like any other source elements
         let mut text = String::new();
@@ -487,6 +511,7 @@ impl<T: E> World<T> {
       }
       "fromiter" => {
         let v = n(1);
+        free!(v);
         let it = ScriptIter::<T>::new(t(2));
         match lib(move || it.collect::<MiniVec<T>>()) {
           Ok(mv) => {
@@ -501,6 +526,7 @@ impl<T: E> World<T> {
       }
       "macrep" => {
         let v = n(1);
+        free!(v);
         let cnt = n(2);
         let mut first_pay: Option<i64> = None;
         let fp = &mut first_pay;
@@ -533,6 +559,7 @@ impl<T: E> World<T> {
       }
       "maclist" => {
         let v = n(1);
+        free!(v);
         let r = lib(|| {
           let mv: MiniVec<T> = minivec::mini_vec![T::fresh(None), T::fresh(None), T::fresh(None)];
           mv
@@ -548,6 +575,7 @@ impl<T: E> World<T> {
       "clone" => {
         let (a, b) = (n(1), n(2));
         need!(a);
+        free!(b);
         let src = self.vref(a);
         match lib(|| src.clone()) {
           Ok(mv) => {
@@ -560,6 +588,7 @@ impl<T: E> World<T> {
       "drainvec" => {
         let (a, b) = (n(1), n(2));
         need!(a);
+        free!(b);
         let src = self.vref(a);
         match lib(|| src.drain_vec()) {
           Ok(mv) => {
@@ -575,8 +604,10 @@ impl<T: E> World<T> {
       "splitoff" => {
         let (a, b) = (n(1), n(2));
         need!(a);
+        free!(b);
         let at = self.arg(t(3), a);
         let src = self.vref(a);
+        let len_before = src.len();
         match lib(|| src.split_off(at)) {
           Ok(mv) => {
             let tail = match self.shadow[a].as_mut() {
@@ -585,7 +616,7 @@ impl<T: E> World<T> {
             };
             let ra = self.req_align[a];
             self.put(b, mv, tail);
-            if at == 0 {
+            if at == 0 && len_before > 0 {
               // the buffer (and its alignment guarantee) moves with the elements
               self.req_align[b] = ra;
               self.req_align[a] = 0;
@@ -1078,7 +1109,11 @@ impl<T: E> World<T> {
         let bs = self.bound(t(2), v);
         let be = self.bound(t(3), v);
         let mv = self.vref(v);
-        match lib(|| ids(&mv[(to_b(&bs), to_b(&be))])) {
+        match lib(|| {
+          let sl = &mv[(to_b(&bs), to_b(&be))];
+          let _u = User::enter();
+          ids(sl)
+        }) {
           Ok(s) => ret = s,
           Err(_) => out = "panic",
         }
@@ -1276,9 +1311,9 @@ impl<T: E> World<T> {
         needi!(i);
         match self.iters[i].as_mut().unwrap() {
           It::Into(d) => match lib(|| {
-            let a = ids(d.as_slice());
-            let b = ids(d.as_mut_slice());
-            let c = ids(d.as_ref());
+            let a = { let s = d.as_slice(); let _u = User::enter(); ids(s) };
+            let b = { let s = d.as_mut_slice(); let _u = User::enter(); ids(s) };
+            let c = { let s: &[T] = d.as_ref(); let _u = User::enter(); ids(s) };
             (a, b, c)
           }) {
             Ok((a, b, c)) => {
@@ -1418,7 +1453,7 @@ pub fn run_history<T: E>(line: &str) -> String {
     }
   }
   let mut w = World::<T>::new();
-  let _ = writeln!(w.out, "H {}", id);
+  println!("H {}", id);
   let mut k = 0;
   for op in body.split(';') {
     let toks: Vec<&str> = op.split_whitespace().collect();
